@@ -1004,6 +1004,45 @@ func ledgerHistory(c *Ctx, id int) {
 			}
 		case x >= 97: // blocks with hostile numeric fields through every acceptance path (s_ledger_hostile.go)
 			r.hostileBurst(users, everyone, pickTok(), s+id, 6)
+		case x < 81 && !preGate:
+			// a contract's inbox holding two unanswered calls of ONE sender, and a peer that presents the receive of the second
+			// one first (contract blocks are unsigned; the sequencer is the only thing that keeps the order): refused — the
+			// FIFO monitor judges whatever gets confirmed
+			from := users[c.R.Intn(len(users))]
+			mk := func() *nom.AccountBlock {
+				return submit("queue-call", &nom.AccountBlock{BlockType: nom.BlockTypeUserSend, Address: from, ToAddress: types.TokenContract,
+					TokenStandard: types.ZnnTokenStandard, Amount: big.NewInt(int64(1 + c.R.Intn(3))), Data: definition.ABIToken.PackMethodPanic(definition.BurnMethodName)})
+			}
+			s1, s2 := mk(), mk()
+			if s1 == nil || s2 == nil {
+				continue
+			}
+			pooled = pooled[:0]
+			if !momentum() {
+				return
+			}
+			for _, target := range []*nom.AccountBlock{s2, s1} {
+				send, _ := n.Chain().GetFrontierMomentumStore().GetAccountBlockByHash(target.Hash)
+				if send == nil {
+					continue
+				}
+				rec := r.sends[send.Hash]
+				var ce *vm.ContractExecution
+				var gerr error
+				if p := safely(func() { ce, gerr = n.Sup.GenerateAutoReceive(send) }); p != "" || gerr != nil || ce == nil || ce.Transaction == nil {
+					if target == s2 {
+						c.Hit("queue-second-first-refused")
+					}
+					continue
+				}
+				if target == s2 && rec != nil && len(rec.received) == 0 {
+					c.Hit("queue-second-first-ACCEPTED")
+				}
+				ins := n.Chain().AcquireInsert("zvh contract receive")
+				n.Chain().AddAccountBlockTransaction(ins, ce.Transaction)
+				ins.Unlock()
+			}
+			c.Hit("queue-scenario")
 		case x < 84 && n.Height() > 6 && !preGate: // reorganisation: the last 1–3 momentums are rolled back (as when a longer side chain arrives)
 			k := uint64(1 + c.R.Intn(3))
 			H := n.Height() - k
